@@ -1,6 +1,1041 @@
-//! C06: not implemented yet.
-use crate::util::Args;
-pub fn main(_a: &Args) {
-    eprintln!("c06: not implemented");
-    std::process::exit(2);
+//! C06 / C07 (containers): histories of Layer / LayerContents operations on `Font::new()` and on
+//! loaded generated fonts. After every operation the outcome and the state through the public
+//! getters are written for the model run (coq/Run/C06.v), and the property oracle (C06: the
+//! invariant through getters, error => unchanged, save+load exact, no panic; C07: assigned
+//! paths distinct ignoring case, stable, portable) is evaluated on what norad did.
+use crate::c07::{portable_clauses, DOCUMENTED_PANIC};
+use crate::util::*;
+use norad::{Font, Glyph, Name};
+use std::collections::{BTreeMap, BTreeSet, HashSet};
+use std::fmt::Write as _;
+use std::path::{Path, PathBuf};
+
+pub const NAMES: [&str; 14] =
+    ["a", "A", "a_", "b", "B", "public.default", "fore", "con", "A_", ".a", "aa", "é", "", "a\u{1}"];
+const NVALID: usize = 12;
+const PD: usize = 5;
+
+fn ic(i: usize) -> char {
+    if i < 10 {
+        (b'0' + i as u8) as char
+    } else {
+        (b'a' + (i - 10) as u8) as char
+    }
+}
+
+#[derive(Clone, Debug)]
+pub enum Op {
+    InsertGlyph(usize, usize),
+    RemoveGlyph(usize, usize),
+    RenameGlyph(usize, usize, usize, bool),
+    ClearLayer(usize),
+    RetainGlyphs(usize, Vec<usize>),
+    EntryOrInsert(usize, usize, usize),
+    EntryRemove(usize, usize),
+    TouchGlyphs(usize),
+    NewLayer(usize),
+    GetOrCreateLayer(usize),
+    RemoveLayer(usize),
+    RenameLayer(usize, usize, bool),
+    RetainLayers(Vec<usize>),
+    RemoveEmptyLayers,
+    SaveLoad,
+}
+use Op::*;
+
+pub fn op_text(o: &Op) -> String {
+    let b = |w: &bool| if *w { '1' } else { '0' };
+    let ks = |k: &Vec<usize>| k.iter().map(|i| ic(*i)).collect::<String>() + ".";
+    match o {
+        InsertGlyph(l, g) => format!("I{}{}", ic(*l), ic(*g)),
+        RemoveGlyph(l, g) => format!("R{}{}", ic(*l), ic(*g)),
+        RenameGlyph(l, o, n, w) => format!("N{}{}{}{}", ic(*l), ic(*o), ic(*n), b(w)),
+        ClearLayer(l) => format!("C{}", ic(*l)),
+        RetainGlyphs(l, k) => format!("T{}{}", ic(*l), ks(k)),
+        EntryOrInsert(l, k, g) => format!("E{}{}{}", ic(*l), ic(*k), ic(*g)),
+        EntryRemove(l, k) => format!("X{}{}", ic(*l), ic(*k)),
+        TouchGlyphs(l) => format!("U{}", ic(*l)),
+        NewLayer(x) => format!("n{}", ic(*x)),
+        GetOrCreateLayer(x) => format!("g{}", ic(*x)),
+        RemoveLayer(x) => format!("r{}", ic(*x)),
+        RenameLayer(o, n, w) => format!("m{}{}{}", ic(*o), ic(*n), b(w)),
+        RetainLayers(k) => format!("t{}", ks(k)),
+        RemoveEmptyLayers => "e".into(),
+        SaveLoad => "S".into(),
+    }
+}
+
+pub fn parse_ops(s: &str) -> Vec<Op> {
+    let cs: Vec<char> = s.chars().collect();
+    let ix = |c: char| -> usize {
+        if c.is_ascii_digit() {
+            c as usize - '0' as usize
+        } else {
+            c as usize - 'a' as usize + 10
+        }
+    };
+    let mut i = 0;
+    let mut out = Vec::new();
+    let keep = |i: &mut usize| -> Vec<usize> {
+        let mut v = Vec::new();
+        while *i < cs.len() && cs[*i] != '.' {
+            v.push(ix(cs[*i]));
+            *i += 1;
+        }
+        *i += 1;
+        v
+    };
+    while i < cs.len() {
+        let c = cs[i];
+        i += 1;
+        match c {
+            'I' => { out.push(InsertGlyph(ix(cs[i]), ix(cs[i + 1]))); i += 2 }
+            'R' => { out.push(RemoveGlyph(ix(cs[i]), ix(cs[i + 1]))); i += 2 }
+            'N' => { out.push(RenameGlyph(ix(cs[i]), ix(cs[i + 1]), ix(cs[i + 2]), cs[i + 3] == '1')); i += 4 }
+            'C' => { out.push(ClearLayer(ix(cs[i]))); i += 1 }
+            'T' => { let l = ix(cs[i]); i += 1; let k = keep(&mut i); out.push(RetainGlyphs(l, k)) }
+            'E' => { out.push(EntryOrInsert(ix(cs[i]), ix(cs[i + 1]), ix(cs[i + 2]))); i += 3 }
+            'X' => { out.push(EntryRemove(ix(cs[i]), ix(cs[i + 1]))); i += 2 }
+            'U' => { out.push(TouchGlyphs(ix(cs[i]))); i += 1 }
+            'n' => { out.push(NewLayer(ix(cs[i]))); i += 1 }
+            'g' => { out.push(GetOrCreateLayer(ix(cs[i]))); i += 1 }
+            'r' => { out.push(RemoveLayer(ix(cs[i]))); i += 1 }
+            'm' => { out.push(RenameLayer(ix(cs[i]), ix(cs[i + 1]), cs[i + 2] == '1')); i += 3 }
+            't' => { let k = keep(&mut i); out.push(RetainLayers(k)) }
+            'e' => out.push(RemoveEmptyLayers),
+            'S' => out.push(SaveLoad),
+            _ => break,
+        }
+    }
+    out
+}
+
+fn panic_code(msg: &str) -> String {
+    if msg.contains(DOCUMENTED_PANIC) {
+        "P1".into()
+    } else if msg.contains("is_valid") {
+        "P3".into()
+    } else if msg.contains("all glyphs in contents must exist") {
+        "P4".into()
+    } else {
+        "P9".into()
+    }
+}
+
+fn err_code(e: &norad::error::NamingError) -> &'static str {
+    use norad::error::NamingError::*;
+    match e {
+        Duplicate(_) => "D",
+        Missing(_) => "M",
+        Invalid(_) => "V",
+        ReservedName => "Z",
+        _ => "?",
+    }
+}
+
+static TMP_COUNTER: std::sync::atomic::AtomicU64 = std::sync::atomic::AtomicU64::new(0);
+fn fresh_dir(base: &Path) -> PathBuf {
+    let n = TMP_COUNTER.fetch_add(1, std::sync::atomic::Ordering::Relaxed);
+    base.join(format!("ufo{}", n))
+}
+
+/// save + load; Ok(font) / Err(code)
+fn save_load(font: &Font, tmp: &Path) -> Result<Font, String> {
+    let dir = fresh_dir(tmp);
+    let r = catch(|| font.save(&dir));
+    let res = match r {
+        Err(m) => Err(panic_code(&m)),
+        Ok(Err(_)) => Err("W".to_string()),
+        Ok(Ok(())) => match catch(|| Font::load(&dir)) {
+            Err(m) => Err(panic_code(&m)),
+            Ok(Err(_)) => Err("Y".to_string()),
+            Ok(Ok(f)) => Ok(f),
+        },
+    };
+    let _ = std::fs::remove_dir_all(&dir);
+    res
+}
+
+/// apply one operation; returns the outcome code. `eff_raw` is set when a raw entry access
+/// changed the glyph map (the known class "entry-raw").
+pub fn apply(font: &mut Font, op: &Op, tmp: &Path, eff_raw: &mut bool) -> String {
+    let nm = |i: &usize| NAMES[*i];
+    let r = catch(|| -> String {
+        match op {
+            InsertGlyph(l, g) => {
+                let glyph = Glyph::new(nm(g));
+                match font.layers.get_mut(nm(l)) {
+                    None => "L".into(),
+                    Some(layer) => {
+                        layer.insert_glyph(glyph);
+                        "k".into()
+                    }
+                }
+            }
+            RemoveGlyph(l, g) => match font.layers.get_mut(nm(l)) {
+                None => "L".into(),
+                Some(layer) => match layer.remove_glyph(nm(g)) {
+                    Some(_) => "s".into(),
+                    None => "n".into(),
+                },
+            },
+            RenameGlyph(l, o, n, w) => match font.layers.get_mut(nm(l)) {
+                None => "L".into(),
+                Some(layer) => match layer.rename_glyph(nm(o), nm(n), *w) {
+                    Ok(()) => "k".into(),
+                    Err(e) => err_code(&e).into(),
+                },
+            },
+            ClearLayer(l) => match font.layers.get_mut(nm(l)) {
+                None => "L".into(),
+                Some(layer) => {
+                    layer.clear();
+                    "k".into()
+                }
+            },
+            RetainGlyphs(l, k) => match font.layers.get_mut(nm(l)) {
+                None => "L".into(),
+                Some(layer) => {
+                    let keep: Vec<&str> = k.iter().map(|i| NAMES[*i]).collect();
+                    layer.retain(|name, _| keep.contains(&name.as_str()));
+                    "k".into()
+                }
+            },
+            EntryOrInsert(l, k, g) => match Name::new(nm(k)) {
+                Err(_) => "V".into(),
+                Ok(key) => {
+                    let glyph = Glyph::new(nm(g));
+                    match font.layers.get_mut(nm(l)) {
+                        None => "L".into(),
+                        Some(layer) => {
+                            if !layer.contains_glyph(nm(k)) {
+                                *eff_raw = true;
+                            }
+                            layer.entry(key).or_insert(glyph);
+                            "k".into()
+                        }
+                    }
+                }
+            },
+            EntryRemove(l, k) => match font.layers.get_mut(nm(l)) {
+                None => "L".into(),
+                Some(layer) => {
+                    if let Ok(key) = Name::new(nm(k)) {
+                        if let std::collections::btree_map::Entry::Occupied(e) = layer.entry(key) {
+                            *eff_raw = true;
+                            e.remove();
+                        }
+                    }
+                    "k".into()
+                }
+            },
+            TouchGlyphs(l) => match font.layers.get_mut(nm(l)) {
+                None => "L".into(),
+                Some(layer) => {
+                    for g in layer.iter_mut() {
+                        g.width += 1.0;
+                    }
+                    for n in NAMES {
+                        if let Some(g) = layer.get_glyph_mut(n) {
+                            g.height += 1.0;
+                        }
+                    }
+                    "k".into()
+                }
+            },
+            NewLayer(x) => match font.layers.new_layer(nm(x)) {
+                Ok(_) => "k".into(),
+                Err(e) => err_code(&e).into(),
+            },
+            GetOrCreateLayer(x) => match font.layers.get_or_create_layer(nm(x)) {
+                Ok(_) => "k".into(),
+                Err(e) => err_code(&e).into(),
+            },
+            RemoveLayer(x) => match font.layers.remove(nm(x)) {
+                Some(_) => "s".into(),
+                None => "n".into(),
+            },
+            RenameLayer(o, n, w) => match font.layers.rename_layer(nm(o), nm(n), *w) {
+                Ok(()) => "k".into(),
+                Err(e) => err_code(&e).into(),
+            },
+            RetainLayers(k) => {
+                let keep: Vec<&str> = k.iter().map(|i| NAMES[*i]).collect();
+                font.layers.retain(|l| keep.contains(&l.name().as_str()));
+                "k".into()
+            }
+            RemoveEmptyLayers => {
+                font.layers.remove_empty_layers();
+                "k".into()
+            }
+            SaveLoad => match save_load(font, tmp) {
+                Ok(f) => {
+                    *font = f;
+                    "k".into()
+                }
+                Err(code) => code,
+            },
+        }
+    });
+    match r {
+        Ok(c) => c,
+        Err(m) => panic_code(&m),
+    }
+}
+
+fn name_text(n: &str) -> String {
+    match NAMES.iter().position(|x| *x == n) {
+        Some(i) => ic(i).to_string(),
+        None => format!("?{}", n),
+    }
+}
+
+/// the state through the public getters, probed over the name table
+pub fn dump(font: &Font) -> String {
+    let mut s = String::new();
+    for layer in font.layers.iter() {
+        s.push_str(&name_text(layer.name()));
+        s.push(':');
+        s.push_str(&layer.path().to_string_lossy());
+        s.push(':');
+        let mut present = 0;
+        for (i, n) in NAMES.iter().enumerate() {
+            let g = layer.get_glyph(n);
+            let p = layer.get_path(n);
+            if g.is_none() && p.is_none() {
+                continue;
+            }
+            s.push(ic(i));
+            match g {
+                Some(g) => {
+                    present += 1;
+                    s.push_str(&name_text(g.name()))
+                }
+                None => s.push('-'),
+            }
+            s.push('=');
+            match p {
+                Some(p) => s.push_str(&p.to_string_lossy()),
+                None => s.push('-'),
+            }
+            s.push(',');
+        }
+        if present != layer.len() {
+            let _ = write!(s, "!{}", layer.len());
+        }
+        s.push(';');
+    }
+    s
+}
+
+type Report = Vec<(String, String, BTreeSet<String>, BTreeMap<String, String>)>;
+fn report(font: &Font) -> Report {
+    font.layers
+        .iter()
+        .map(|l| {
+            let glyphs: BTreeSet<String> = l.iter().map(|g| g.name().to_string()).collect();
+            let mut paths = BTreeMap::new();
+            for g in &glyphs {
+                if let Some(p) = l.get_path(g) {
+                    paths.insert(g.clone(), p.to_string_lossy().to_string());
+                }
+            }
+            (l.name().to_string(), l.path().to_string_lossy().to_string(), glyphs, paths)
+        })
+        .collect()
+}
+
+/// C06: the invariant, through public getters. Returns failed clauses.
+fn inv_clauses(font: &Font) -> Vec<String> {
+    let mut bad = Vec::new();
+    let layers: Vec<_> = font.layers.iter().collect();
+    let mut seen = HashSet::new();
+    for l in &layers {
+        if !seen.insert(l.name().to_string()) {
+            bad.push(format!("layer name {:?} occurs twice", l.name().as_str()));
+        }
+    }
+    let ndefault = layers.iter().filter(|l| l.path() == Path::new("glyphs")).count();
+    if ndefault != 1 {
+        bad.push(format!("{} layers live in directory 'glyphs'", ndefault));
+    }
+    if layers.first().map(|l| l.path() == Path::new("glyphs")) != Some(true) {
+        bad.push("the first layer is not the default layer".into());
+    }
+    if layers.is_empty() {
+        bad.push("the font has no layer at all".into());
+        return bad;
+    }
+    match catch(|| font.layers.default_layer().path() == Path::new("glyphs")) {
+        Ok(true) => {}
+        Ok(false) => bad.push("default_layer() is not in 'glyphs'".into()),
+        Err(_) => bad.push("default_layer() panics".into()),
+    }
+    for (i, l) in layers.iter().enumerate() {
+        if i > 0 && l.name().as_str() == "public.default" {
+            bad.push("a non-default layer is called public.default".into());
+        }
+        let mut names = HashSet::new();
+        let mut count = 0;
+        for g in l.iter() {
+            count += 1;
+            if !names.insert(g.name().to_string()) {
+                bad.push(format!("glyph name {:?} occurs twice in layer {:?}", g.name().as_str(), l.name().as_str()));
+            }
+            match l.get_glyph(g.name()) {
+                Some(h) if h.name() == g.name() => {}
+                _ => bad.push(format!("glyph {:?} is not stored under its own name", g.name().as_str())),
+            }
+            if l.get_path(g.name()).is_none() {
+                bad.push(format!("glyph {:?} has no file name", g.name().as_str()));
+            }
+        }
+        if count != l.len() {
+            bad.push("len() differs from the number of glyphs".into());
+        }
+        for n in NAMES {
+            if l.get_path(n).is_some() && !l.contains_glyph(n) {
+                bad.push(format!("file name recorded for {:?} which is not in the layer", n));
+            }
+        }
+    }
+    bad
+}
+
+/// C07 at container level: distinct ignoring case
+fn distinct_clauses(font: &Font) -> Vec<String> {
+    let mut bad = Vec::new();
+    let mut dirs = HashSet::new();
+    for l in font.layers.iter() {
+        if !dirs.insert(l.path().to_string_lossy().to_lowercase()) {
+            bad.push(format!("layer directory {:?} is used twice (ignoring case)", l.path()));
+        }
+        let mut files = HashSet::new();
+        for g in l.iter() {
+            if let Some(p) = l.get_path(g.name()) {
+                if !files.insert(p.to_string_lossy().to_lowercase()) {
+                    bad.push(format!("file name {:?} is used twice (ignoring case) in layer {:?}", p, l.name().as_str()));
+                }
+            }
+        }
+    }
+    bad
+}
+
+fn touches_layer(op: &Op, ln: &str) -> bool {
+    match op {
+        RemoveLayer(x) => NAMES[*x] == ln,
+        RenameLayer(o, n, _) => NAMES[*o] == ln || NAMES[*n] == ln,
+        RetainLayers(k) => !k.iter().any(|i| NAMES[*i] == ln),
+        RemoveEmptyLayers => true,
+        _ => false,
+    }
+}
+fn touches_glyph(op: &Op, ln: &str, g: &str) -> bool {
+    match op {
+        RemoveGlyph(l, x) => NAMES[*l] == ln && NAMES[*x] == g,
+        RenameGlyph(l, o, n, _) => NAMES[*l] == ln && (NAMES[*o] == g || NAMES[*n] == g),
+        ClearLayer(l) => NAMES[*l] == ln,
+        RetainGlyphs(l, k) => NAMES[*l] == ln && !k.iter().any(|i| NAMES[*i] == g),
+        _ => touches_layer(op, ln),
+    }
+}
+
+pub struct Hist {
+    pub start: String,
+    pub start_wf: bool,
+    pub font: Font,
+    pub eff_raw: bool,
+    pub initial_paths: HashSet<String>,
+    pub ops: String,
+}
+
+#[derive(Default)]
+pub struct Sink {
+    pub oracle: String,
+    pub failures: u64,
+    pub steps: u64,
+    pub saveloads: u64,
+    pub outs: BTreeMap<String, u64>,
+    pub known_hits: BTreeMap<String, u64>,
+}
+
+impl Hist {
+    fn class(&self) -> &'static str {
+        if self.eff_raw {
+            "entry-raw"
+        } else if !self.start_wf {
+            "load-no-uniqueness"
+        } else {
+            ""
+        }
+    }
+    fn fail(&self, sink: &mut Sink, what: Vec<String>, step_op: &str) {
+        if what.is_empty() {
+            return;
+        }
+        sink.failures += 1;
+        if sink.failures > 4000 && !self.class().is_empty() {
+            *sink.known_hits.entry(self.class().to_string()).or_insert(0) += 1;
+            return;
+        }
+        let _ = writeln!(
+            sink.oracle,
+            "{}",
+            serde_json::json!({"start": self.start, "ops": self.ops, "at": step_op, "failed": what, "class": self.class()})
+        );
+    }
+    /// apply `op`, evaluate the per-step oracle, return (outcome code, dump)
+    pub fn step(&mut self, op: &Op, tmp: &Path, sink: &mut Sink) -> (String, String) {
+        let before_dump = dump(&self.font);
+        let before = report(&self.font);
+        let t = op_text(op);
+        self.ops.push_str(&t);
+        let code = apply(&mut self.font, op, tmp, &mut self.eff_raw);
+        sink.steps += 1;
+        *sink.outs.entry(code.clone()).or_insert(0) += 1;
+        let after_dump = dump(&self.font);
+        let mut bad = Vec::new();
+        if code.starts_with('P') {
+            bad.push(format!("C06: panic ({})", code));
+            self.fail(sink, bad, &t);
+            return (code, after_dump);
+        }
+        let is_err = matches!(code.as_str(), "D" | "M" | "V" | "Z" | "W" | "Y");
+        if is_err && before_dump != after_dump {
+            bad.push("C06: an operation that reported an error changed the container".into());
+        }
+        if matches!(op, SaveLoad) {
+            sink.saveloads += 1;
+            if code != "k" {
+                bad.push(format!("C06: save + load failed ({})", code));
+            } else if report(&self.font) != before {
+                bad.push("C06: save + load does not yield exactly the layers and glyphs the containers reported".into());
+            }
+        }
+        bad.extend(inv_clauses(&self.font).into_iter().map(|c| format!("C06: {}", c)));
+        bad.extend(distinct_clauses(&self.font).into_iter().map(|c| format!("C07: {}", c)));
+        // stability and portability of assigned names
+        let after = report(&self.font);
+        for (ln, dir, _, paths) in &before {
+            if let Some((_, dir2, _, paths2)) = after.iter().find(|x| &x.0 == ln) {
+                if !touches_layer(op, ln) && dir != dir2 {
+                    bad.push(format!("C07: layer {:?} stayed but its directory changed {:?} -> {:?}", ln, dir, dir2));
+                }
+                for (g, p) in paths {
+                    if let Some(p2) = paths2.get(g) {
+                        if !touches_glyph(op, ln, g) && p != p2 {
+                            bad.push(format!("C07: glyph {:?} stayed in layer {:?} but its file name changed {:?} -> {:?}", g, ln, p, p2));
+                        }
+                    }
+                }
+            }
+        }
+        for (i, (_, dir, _, paths)) in after.iter().enumerate() {
+            if i > 0 && !self.initial_paths.contains(dir) {
+                for c in portable_clauses(dir, 'l') {
+                    bad.push(format!("C07: layer directory {:?}: {}", dir, c));
+                }
+            }
+            for p in paths.values() {
+                if !self.initial_paths.contains(p) {
+                    for c in portable_clauses(p, 'g') {
+                        bad.push(format!("C07: file name {:?}: {}", p, c));
+                    }
+                }
+            }
+        }
+        self.fail(sink, bad, &t);
+        (code, after_dump)
+    }
+    /// the clauses that speak about a state, on the start state (matters for loaded fonts)
+    pub fn check_start(&self, sink: &mut Sink) {
+        let mut bad: Vec<String> = inv_clauses(&self.font).into_iter().map(|c| format!("C06: {}", c)).collect();
+        bad.extend(distinct_clauses(&self.font).into_iter().map(|c| format!("C07: {}", c)));
+        self.fail(sink, bad, "(start)");
+    }
+    /// end of a history: saving and loading yields exactly what the containers report
+    pub fn final_check(&self, tmp: &Path, sink: &mut Sink) {
+        sink.saveloads += 1;
+        let before = report(&self.font);
+        let mut bad = Vec::new();
+        match save_load(&self.font, tmp) {
+            Ok(f) => {
+                if report(&f) != before {
+                    bad.push("C06: save + load at the end does not yield exactly the layers and glyphs the containers report".to_string());
+                }
+            }
+            Err(code) => bad.push(format!("C06: save + load at the end failed ({})", code)),
+        }
+        self.fail(sink, bad, "(end)");
+    }
+}
+
+fn xml_escape(s: &str) -> String {
+    s.replace('&', "&amp;").replace('<', "&lt;").replace('>', "&gt;")
+}
+
+/// disk text -> UFO tree -> Font::load
+fn parse_disk(text: &str) -> Vec<(usize, String, Vec<(usize, String)>)> {
+    let mut v = Vec::new();
+    for l in text.split(';').filter(|x| !x.is_empty()) {
+        let parts: Vec<&str> = l.splitn(3, ':').collect();
+        let ni = parse_ops(&format!("C{}", parts[0]));
+        let ni = match &ni[0] {
+            ClearLayer(i) => *i,
+            _ => 0,
+        };
+        let mut gs = Vec::new();
+        for e in parts[2].split(',').filter(|x| !x.is_empty()) {
+            let (g, f) = e.split_once('=').unwrap();
+            let gi = match &parse_ops(&format!("C{}", g))[0] {
+                ClearLayer(i) => *i,
+                _ => 0,
+            };
+            gs.push((gi, f.to_string()));
+        }
+        v.push((ni, parts[1].to_string(), gs));
+    }
+    v
+}
+
+pub fn start_font(start: &str, tmp: &Path) -> Option<(Font, HashSet<String>)> {
+    if start == "N" {
+        return Some((Font::new(), HashSet::new()));
+    }
+    let d = parse_disk(start);
+    let dir = fresh_dir(tmp);
+    std::fs::create_dir_all(&dir).ok()?;
+    let plist_head = "<?xml version=\"1.0\" encoding=\"UTF-8\"?>\n<!DOCTYPE plist PUBLIC \"-//Apple//DTD PLIST 1.0//EN\" \"http://www.apple.com/DTDs/PropertyList-1.0.dtd\">\n<plist version=\"1.0\">\n";
+    write_file(&dir.join("metainfo.plist"), &format!("{}<dict>\n<key>creator</key>\n<string>org.verif</string>\n<key>formatVersion</key>\n<integer>3</integer>\n</dict>\n</plist>\n", plist_head));
+    let mut lc = format!("{}<array>\n", plist_head);
+    let mut initial = HashSet::new();
+    for (ni, ldir, gs) in &d {
+        let _ = write!(lc, "<array>\n<string>{}</string>\n<string>{}</string>\n</array>\n", xml_escape(NAMES[*ni]), xml_escape(ldir));
+        initial.insert(ldir.clone());
+        let ld = dir.join(ldir);
+        let _ = std::fs::create_dir_all(&ld);
+        let mut c = format!("{}<dict>\n", plist_head);
+        for (gi, f) in gs {
+            let _ = write!(c, "<key>{}</key>\n<string>{}</string>\n", xml_escape(NAMES[*gi]), xml_escape(f));
+            initial.insert(f.clone());
+            write_file(&ld.join(f), &format!("<?xml version=\"1.0\" encoding=\"UTF-8\"?>\n<glyph name=\"{}\" format=\"2\">\n</glyph>\n", xml_escape(NAMES[*gi])));
+        }
+        c.push_str("</dict>\n</plist>\n");
+        write_file(&ld.join("contents.plist"), &c);
+    }
+    lc.push_str("</array>\n</plist>\n");
+    write_file(&dir.join("layercontents.plist"), &lc);
+    let r = catch(|| Font::load(&dir));
+    let _ = std::fs::remove_dir_all(&dir);
+    match r {
+        Ok(Ok(f)) => Some((f, initial)),
+        _ => None,
+    }
+}
+
+/// (text, well-formed?)
+pub const STARTS: [(&str, bool); 10] = [
+    ("N", true),
+    ("6:glyphs:0=a.glif,1=A_.glif,;3:glyphs.b:0=a.glif,;", true),
+    ("0:glyphs.a:1=x.glif,2=X_.glif,;5:glyphs:3=b.glif,;1:glyphs.A_:;", true),
+    ("5:glyphs:;3:glyphs.A_:0=a.glif,;", true),
+    ("5:glyphs:;0:glyphs.a:;0:glyphs.b:;", false),
+    ("5:glyphs:;0:glyphs.a:;1:glyphs.a:;", false),
+    ("0:glyphs:;5:glyphs.x:;", false),
+    ("5:glyphs:;0:glyphs:;", false),
+    ("5:glyphs:;0:glyphs.a:;1:glyphs.A:;", false),
+    ("5:glyphs:0=x.glif,1=X.glif,;", false),
+];
+
+fn new_hist(start: &str, wf: bool, tmp: &Path) -> Option<Hist> {
+    let (font, initial) = start_font(start, tmp)?;
+    Some(Hist { start: start.to_string(), start_wf: wf, font, eff_raw: false, initial_paths: initial, ops: String::new() })
+}
+
+fn clone_hist(h: &Hist) -> Hist {
+    Hist {
+        start: h.start.clone(),
+        start_wf: h.start_wf,
+        font: h.font.clone(),
+        eff_raw: h.eff_raw,
+        initial_paths: h.initial_paths.clone(),
+        ops: h.ops.clone(),
+    }
+}
+
+/// depth-first enumeration; one line per node: outcome "|" (dump or "=" when unchanged)
+fn trie(h: &Hist, alphabet: &[Op], depth: usize, prev: &str, tmp: &Path, sink: &mut Sink, lines: &mut String, idx: &mut String, final_every: bool) {
+    if depth == 0 {
+        return;
+    }
+    for op in alphabet {
+        let mut c = clone_hist(h);
+        let (code, d) = c.step(op, tmp, sink);
+        let _ = writeln!(lines, "{}|{}", code, if d == prev { "=" } else { d.as_str() });
+        let _ = writeln!(idx, "{}", c.ops);
+        if code.starts_with('P') {
+            continue;
+        }
+        if final_every && d != prev {
+            c.final_check(tmp, sink);
+        }
+        trie(&c, alphabet, depth - 1, &d, tmp, sink, lines, idx, final_every);
+    }
+}
+
+struct TrieSpec {
+    id: &'static str,
+    start: usize,
+    alphabet: Vec<Op>,
+    depth: usize,
+    /// how many leading operations are fixed per shard
+    split: usize,
+}
+
+fn glyph_alphabet_small() -> Vec<Op> {
+    let l = PD;
+    vec![
+        InsertGlyph(l, 1),
+        InsertGlyph(l, 2),
+        InsertGlyph(l, 0),
+        RemoveGlyph(l, 1),
+        RemoveGlyph(l, 2),
+        RenameGlyph(l, 1, 2, false),
+        RenameGlyph(l, 1, 2, true),
+        RenameGlyph(l, 2, 1, true),
+        ClearLayer(l),
+        RetainGlyphs(l, vec![2]),
+    ]
+}
+fn glyph_alphabet_wide() -> Vec<Op> {
+    let l = PD;
+    let mut v = glyph_alphabet_small();
+    v.extend(vec![
+        SaveLoad,
+        RenameGlyph(l, 1, 1, true),
+        RenameGlyph(l, 0, 1, false),
+        RenameGlyph(l, 0, 12, false),
+        RenameGlyph(l, 1, 13, true),
+        RenameGlyph(l, 12, 0, false),
+        RetainGlyphs(l, vec![]),
+        RetainGlyphs(l, vec![1, 0]),
+        EntryOrInsert(l, 2, 2),
+        EntryOrInsert(l, 0, 1),
+        EntryRemove(l, 1),
+        EntryRemove(l, 2),
+        TouchGlyphs(l),
+        InsertGlyph(0, 1),
+    ]);
+    v
+}
+fn layer_alphabet_small() -> Vec<Op> {
+    vec![
+        NewLayer(1),
+        NewLayer(2),
+        NewLayer(0),
+        RemoveLayer(1),
+        RemoveLayer(2),
+        RenameLayer(1, 2, false),
+        RenameLayer(1, 2, true),
+        RenameLayer(2, 1, true),
+        RenameLayer(PD, 0, false),
+        RenameLayer(1, PD, true),
+    ]
+}
+fn layer_alphabet_wide() -> Vec<Op> {
+    let mut v = layer_alphabet_small();
+    v.extend(vec![
+        SaveLoad,
+        GetOrCreateLayer(1),
+        NewLayer(PD),
+        NewLayer(12),
+        NewLayer(13),
+        RemoveLayer(PD),
+        RenameLayer(1, 1, true),
+        RenameLayer(1, PD, false),
+        RenameLayer(0, PD, true),
+        RenameLayer(1, 0, true),
+        RenameLayer(1, 12, false),
+        RenameLayer(3, 1, false),
+        RetainLayers(vec![]),
+        RemoveEmptyLayers,
+        InsertGlyph(1, 0),
+    ]);
+    v
+}
+fn mixed_alphabet() -> Vec<Op> {
+    let mut v = Vec::new();
+    for l in [PD, 6, 0, 1, 3] {
+        v.extend(vec![
+            InsertGlyph(l, 1),
+            InsertGlyph(l, 2),
+            RemoveGlyph(l, 0),
+            RenameGlyph(l, 0, 1, true),
+            RenameGlyph(l, 1, 8, false),
+            ClearLayer(l),
+            RetainGlyphs(l, vec![0]),
+            EntryOrInsert(l, 3, 3),
+            EntryRemove(l, 0),
+        ]);
+    }
+    v.extend(vec![
+        NewLayer(1),
+        NewLayer(8),
+        NewLayer(0),
+        NewLayer(3),
+        GetOrCreateLayer(4),
+        RemoveLayer(0),
+        RemoveLayer(3),
+        RenameLayer(6, PD, false),
+        RenameLayer(6, 0, true),
+        RenameLayer(0, 1, false),
+        RenameLayer(3, 1, true),
+        RenameLayer(0, 6, true),
+        RenameLayer(1, 8, false),
+        RetainLayers(vec![0]),
+        RemoveEmptyLayers,
+        SaveLoad,
+    ]);
+    v
+}
+
+fn random_op(rng: &mut Rng) -> Op {
+    let layer_pool = [PD, PD, PD, 6, 0, 1, 2, 3, 8];
+    let l = *rng.pick(&layer_pool);
+    let vname = |rng: &mut Rng| rng.below(NVALID as u64) as usize;
+    let any = |rng: &mut Rng| if rng.chance(1, 12) { 12 + rng.below(2) as usize } else { rng.below(NVALID as u64) as usize };
+    let few = |rng: &mut Rng| [0usize, 1, 2, 8, 3][rng.below(5) as usize];
+    let keep = |rng: &mut Rng| (0..NVALID).filter(|_| rng.chance(1, 2)).collect::<Vec<_>>();
+    match rng.below(100) {
+        0..=24 => InsertGlyph(l, if rng.chance(2, 3) { few(rng) } else { vname(rng) }),
+        25..=32 => RemoveGlyph(l, few(rng)),
+        33..=46 => RenameGlyph(l, few(rng), if rng.chance(2, 3) { few(rng) } else { any(rng) }, rng.chance(1, 2)),
+        47..=48 => ClearLayer(l),
+        49..=52 => RetainGlyphs(l, keep(rng)),
+        53..=54 => EntryOrInsert(l, any(rng), vname(rng)),
+        55 => EntryRemove(l, few(rng)),
+        56..=57 => TouchGlyphs(l),
+        58..=69 => NewLayer(if rng.chance(2, 3) { few(rng) } else { any(rng) }),
+        70..=73 => GetOrCreateLayer(any(rng)),
+        74..=79 => RemoveLayer(if rng.chance(2, 3) { few(rng) } else { any(rng) }),
+        80..=91 => {
+            let pool = [PD, 6, 0, 1, 2, 3, 8];
+            let o = if rng.chance(3, 4) { *rng.pick(&pool) } else { any(rng) };
+            let n = if rng.chance(3, 4) { *rng.pick(&pool) } else { any(rng) };
+            RenameLayer(o, n, rng.chance(1, 2))
+        }
+        92..=93 => RetainLayers(keep(rng)),
+        94 => RemoveEmptyLayers,
+        _ => SaveLoad,
+    }
+}
+
+pub fn main(a: &Args) {
+    if let Some(p) = &a.replay {
+        replay(p, &a.out);
+        return;
+    }
+    let light = a.extra.iter().any(|x| x == "--light");
+    let tmp = a.out.join("tmp");
+    std::fs::create_dir_all(&tmp).unwrap();
+    let mut rng = Rng::new(a.seed);
+    let mut sink = Sink::default();
+    let mut shards: Vec<serde_json::Value> = Vec::new();
+    let deep = if a.thorough() { 5 } else { 4 };
+    let mut specs = vec![
+        TrieSpec { id: "G", start: 0, alphabet: glyph_alphabet_small(), depth: deep, split: 2 },
+        TrieSpec { id: "L", start: 0, alphabet: layer_alphabet_small(), depth: deep, split: 2 },
+        TrieSpec { id: "Gw", start: 0, alphabet: glyph_alphabet_wide(), depth: 3, split: 1 },
+        TrieSpec { id: "Lw", start: 0, alphabet: layer_alphabet_wide(), depth: 3, split: 1 },
+    ];
+    for s in 0..STARTS.len() {
+        let ids = ["M0", "M1", "M2", "M3", "M4", "M5", "M6", "M7", "M8", "M9"];
+        specs.push(TrieSpec { id: ids[s], start: s, alphabet: mixed_alphabet(), depth: if s < 4 { 2 } else { 1 }, split: if s < 4 { 1 } else { 0 } });
+    }
+    if light {
+        // C07's container part: well-formed starts, no raw entry access (those belong to C06)
+        specs.retain(|s| s.id == "M0" || s.id == "M1" || s.id == "M2");
+        for s in specs.iter_mut() {
+            s.alphabet.retain(|o| !matches!(o, EntryOrInsert(..) | EntryRemove(..)));
+        }
+    }
+    let mut nodes = 0u64;
+    let tries: Vec<serde_json::Value> = specs
+        .iter()
+        .map(|s| serde_json::json!({"id": s.id, "start": STARTS[s.start].0, "well_formed_start": STARTS[s.start].1,
+            "operations_in_alphabet": s.alphabet.len(), "max_length": s.depth,
+            "alphabet": s.alphabet.iter().map(op_text).collect::<Vec<_>>().join(" ")}))
+        .collect();
+    for spec in &specs {
+        let (start, wf) = STARTS[spec.start];
+        let root = match new_hist(start, wf, &tmp) {
+            Some(h) => h,
+            None => continue,
+        };
+        root.check_start(&mut sink);
+        let alpha_text: String = spec.alphabet.iter().map(op_text).collect();
+        // the top of the trie (depth = split) and one shard per prefix of length `split`
+        let mut prefixes: Vec<Vec<usize>> = vec![vec![]];
+        for _ in 0..spec.split {
+            prefixes = prefixes.iter().flat_map(|p| (0..spec.alphabet.len()).map(move |i| { let mut q = p.clone(); q.push(i); q })).collect();
+        }
+        let mut jobs: Vec<(String, Vec<usize>, usize)> = Vec::new();
+        if spec.split > 0 {
+            jobs.push((format!("{}_top", spec.id), vec![], spec.split));
+        }
+        for p in prefixes {
+            let tag: String = p.iter().map(|i| ic(*i)).collect();
+            jobs.push((format!("{}_{}", spec.id, if tag.is_empty() { "all".to_string() } else { tag }), p, spec.depth - spec.split));
+        }
+        for (sid, prefix, depth) in jobs {
+            let mut h = clone_hist(&root);
+            let mut dead = false;
+            let mut scratch = Sink::default();
+            for i in &prefix {
+                let (code, _) = h.step(&spec.alphabet[*i], &tmp, &mut scratch);
+                if code.starts_with('P') {
+                    dead = true;
+                    break;
+                }
+            }
+            if dead {
+                continue;
+            }
+            let prefix_text = h.ops.clone();
+            let mut lines = String::new();
+            let mut idx = String::new();
+            let d0 = dump(&h.font);
+            trie(&h, &spec.alphabet, depth, &d0, &tmp, &mut sink, &mut lines, &mut idx, true);
+            let n = lines.lines().count();
+            nodes += n as u64;
+            write_file(&a.out.join(format!("{}.txt", sid)), &lines);
+            write_file(&a.out.join(format!("{}.idx", sid)), &idx);
+            shards.push(serde_json::json!({"id": sid, "kind": "trie", "start": start, "alphabet": alpha_text, "prefix": prefix_text,
+                "state0": d0, "depth": depth, "nodes": n, "weight": lines.len() + 40 * n}));
+        }
+    }
+    // random histories
+    let nrand = if a.thorough() { 6_000 } else if light { 250 } else { 400 };
+    let per = 40usize;
+    let mut text = String::new();
+    let mut in_shard = 0usize;
+    let mut shard_no = 0usize;
+    let mut hist_steps = 0u64;
+    for i in 0..nrand {
+        let si = if i % 3 == 0 { 0 } else { rng.below(if light { 4 } else { STARTS.len() as u64 }) as usize };
+        let (start, wf) = STARTS[si];
+        let mut h = match new_hist(start, wf, &tmp) {
+            Some(h) => h,
+            None => continue,
+        };
+        let len = rng.range(1, 40) as usize;
+        let mut prev = dump(&h.font);
+        let mut obs: Vec<String> = vec![prev.clone()];
+        let mut panicked = false;
+        for _ in 0..len {
+            let mut op = random_op(&mut rng);
+            if light {
+                if let EntryOrInsert(l, ..) | EntryRemove(l, _) = op {
+                    op = TouchGlyphs(l);
+                }
+            }
+            let (code, d) = h.step(&op, &tmp, &mut sink);
+            obs.push(format!("{}|{}", code, if d == prev { "=" } else { d.as_str() }));
+            prev = d;
+            hist_steps += 1;
+            if code.starts_with('P') {
+                panicked = true;
+                break;
+            }
+        }
+        if !panicked {
+            h.final_check(&tmp, &mut sink);
+        }
+        let _ = writeln!(text, "{}#{}#{}", start, h.ops, obs.join("#"));
+        in_shard += 1;
+        if in_shard == per || i + 1 == nrand {
+            let sid = format!("H{}", shard_no);
+            write_file(&a.out.join(format!("{}.txt", sid)), &text);
+            shards.push(serde_json::json!({"id": sid, "kind": "listed", "histories": in_shard, "weight": text.len() + 2000 * in_shard}));
+            text.clear();
+            in_shard = 0;
+            shard_no += 1;
+        }
+    }
+    // tables from rustc's std for the characters that can occur
+    let mut chars: BTreeSet<char> = "_0123456789.glifyphsxX".chars().collect();
+    for n in NAMES {
+        chars.extend(n.chars());
+    }
+    for (s, _) in STARTS {
+        chars.extend(s.chars());
+    }
+    let mut up: Vec<String> = Vec::new();
+    let mut low: Vec<String> = Vec::new();
+    for ch in &chars {
+        if ch.is_uppercase() {
+            up.push(format!("{}", *ch as u32));
+        }
+        let l: Vec<char> = ch.to_lowercase().collect();
+        if l != vec![*ch] {
+            low.push(format!("({},{})", *ch as u32, g_nlist(l.iter().map(|c| *c as u64))));
+        }
+    }
+    let names: Vec<String> = NAMES.iter().map(|n| g_str(n)).collect();
+    write_file(
+        &a.out.join("tables.v"),
+        &format!(
+            "Definition up : list N := {}.\nDefinition low : list (N * list N) := {}.\nDefinition names : list (list N) := {}.\n",
+            g_list(&up),
+            g_list(&low),
+            g_list(&names)
+        ),
+    );
+    write_file(&a.out.join("oracle.jsonl"), &sink.oracle);
+    let summary = serde_json::json!({
+        "shards": shards, "tries": tries, "trie_nodes": nodes, "random_histories": nrand, "random_steps": hist_steps,
+        "operations_applied": sink.steps, "save_load_round_trips": sink.saveloads, "outcomes": sink.outs,
+        "oracle_failures": sink.failures, "oracle_failures_not_written": sink.known_hits,
+        "names": NAMES.iter().map(|n| n.to_string()).collect::<Vec<_>>(),
+    });
+    write_file(&a.out.join("summary.json"), &summary.to_string());
+    let _ = std::fs::remove_dir_all(&tmp);
+}
+
+fn replay(p: &Path, out: &Path) {
+    let v: serde_json::Value = serde_json::from_str(&std::fs::read_to_string(p).expect("replay file")).expect("json");
+    let inp = if v.get("input").is_some() { &v["input"] } else { &v };
+    let start = inp["start"].as_str().unwrap_or("N").to_string();
+    let ops = parse_ops(inp["ops"].as_str().unwrap_or(""));
+    let tmp = out.join("tmp_replay");
+    std::fs::create_dir_all(&tmp).unwrap();
+    let wf = STARTS.iter().find(|(s, _)| *s == start).map(|(_, w)| *w).unwrap_or(true);
+    let mut h = match new_hist(&start, wf, &tmp) {
+        Some(h) => h,
+        None => {
+            println!("the start tree does not load: {}", start);
+            return;
+        }
+    };
+    println!("names: {:?}", NAMES.iter().enumerate().map(|(i, n)| format!("{}={:?}", ic(i), n)).collect::<Vec<_>>());
+    println!("start: {}   state: {}", start, dump(&h.font));
+    let mut sink = Sink::default();
+    h.check_start(&mut sink);
+    for op in &ops {
+        let (code, d) = h.step(op, &tmp, &mut sink);
+        println!("{:?} -> {}   state: {}", op, code, d);
+        if code.starts_with('P') {
+            break;
+        }
+    }
+    h.final_check(&tmp, &mut sink);
+    if sink.oracle.is_empty() {
+        println!("oracle: every clause holds at every step");
+    } else {
+        for l in sink.oracle.lines() {
+            println!("oracle failure: {}", l);
+        }
+    }
+    let _ = std::fs::remove_dir_all(&tmp);
 }
